@@ -24,6 +24,7 @@ class World:
         self.cert_before = self.ca.issue(subj, T0 - 100000, T0 - 1, 'before')      # ends one second before
         self.cert_after = self.ca.issue(subj, T0 + 1, T0 + 100000, 'after')        # starts one second after
         self.cert_absent = self.ca.issue(subj, T0 - 100000, T0 + 100000, 'absent')  # not listed in the publications file
+        self.cert_ec = self.ca.issue(subj, T0 - 100000, T0 + 100000, 'ec', ec=True)            # ECDSA: an undecodable signature value makes OpenSSL report an error (-1), not a mismatch (0)
         self.pub_times = [T0 + 86400 * 15, T0 + 86400 * 45, T0 + 86400 * 75]
         # for publications files the context downloads itself (they are PKI-verified by the library, with today's clock inside OpenSSL)
         self.pf_signer = self.ca.issue('/C=EE/O=Guardtime AS/CN=pub.example/emailAddress=publications@guardtime.test', name='pfsigner')
@@ -61,6 +62,15 @@ def make_sig(rng, w, kind, work, t=T0, pub_time=None):
         elif which == 'otherdata':
             cert = w.cert_ok
             sigval = sign_pubdata(cert, s.cal.pub_time + 1, root, work)     # a genuine signature, but over other published data
+        elif which == 'ecok':
+            cert = w.cert_ec
+            sigval = sign_pubdata(cert, s.cal.pub_time, root, work)
+        elif which == 'ecjunk':
+            cert = w.cert_ec
+            sigval = rng.choice([bytes(rng.getrandbits(8) | 1 for _ in range(rng.choice([8, 64, 71]))), sign_pubdata(cert, s.cal.pub_time, root, work)[:rng.choice([5, 20, 40])]])   # not a DER ECDSA signature
+        elif which == 'ecother':
+            cert = w.cert_ec
+            sigval = sign_pubdata(cert, s.cal.pub_time + 1, root, work)     # well-formed ECDSA signature over other data
         else:
             cert = {'ok': w.cert_ok, 'exact': w.cert_ok2, 'before': w.cert_before, 'after': w.cert_after, 'absent': w.cert_absent}[which]
             sigval = sign_pubdata(cert, s.cal.pub_time, root, work)
@@ -70,7 +80,7 @@ def make_sig(rng, w, kind, work, t=T0, pub_time=None):
 
 
 def build_pubfile(w, work, pubs):
-    recs = [hdr()] + [cert_rec(c) for c in (w.cert_ok, w.cert_ok2, w.cert_before, w.cert_after)] + [pub_rec(t, h) for t, h in sorted(pubs)]
+    recs = [hdr()] + [cert_rec(c) for c in (w.cert_ok, w.cert_ok2, w.cert_before, w.cert_after, w.cert_ec)] + [pub_rec(t, h) for t, h in sorted(pubs)]
     body = MAGIC + b''.join(x.enc() for x in recs)
     return body + sig_rec(w.cert_ok.pkcs7_detached(body, work)).enc()
 
@@ -223,7 +233,7 @@ def expect(policy, sc):
             return ('NA',)
         if which in ('before', 'after'):
             return ('FAIL', {'KEY-03'})
-        if which in ('badsig', 'otherdata'):
+        if which in ('badsig', 'otherdata', 'ecjunk', 'ecother'):
             return ('FAIL', {'KEY-02'})
         return ('OK',)
     if policy == 'calendar':
@@ -285,7 +295,7 @@ def worker(job, r):
     c = sess.cmd
     c('ctx 0')
     c('set_ext 0 ksi+http://ext.example/x anon anon')
-    kinds = ['nocal', 'cal', 'pub', 'auth:ok', 'auth:exact', 'auth:before', 'auth:after', 'auth:absent', 'auth:badsig', 'auth:otherdata']
+    kinds = ['nocal', 'cal', 'pub', 'auth:ok', 'auth:exact', 'auth:before', 'auth:after', 'auth:absent', 'auth:badsig', 'auth:otherdata', 'auth:ecok', 'auth:ecjunk', 'auth:ecother']
     for i in range(n):
         kind = rng.choice(kinds)
         t = T0 if kind.startswith('auth') or rng.random() < 0.5 else rng.randrange(1400000000, 1600000000)
